@@ -659,6 +659,10 @@ func Run(cfg Config, tapes *Tapes, main func()) (*Sim, *Outcome) {
 			// test that is blocked on a timer of its own (a coalescing delay, a tick) is not parked anywhere the
 			// controller can see - let a little simulated time pass once, so that it can fire and be scheduled.
 			graced = true
+			select {
+			case <-s.wake: // (a token left by the last park, everything is durably blocked right now)
+			default:
+			}
 			tm := time.NewTimer(quiesceGrace)
 			select {
 			case <-s.wake:
